@@ -474,6 +474,15 @@ def cases(draw):
     p3 = copy.deepcopy(prog)
     p3["modules"][0].setdefault("raw_items", []).append("pub trait DvFaultTrait { fn dv_ok(&self, a: u8) -> u8; fn dv_bad(&self, %s); }" % bad[1])
     tf.append({"rule": bad[0] + "-in-trait-method", "position": "trait", "ctx": "DvFaultTrait::dv_bad", "depth": 1, "program": p3, "support_over": {"traits": True}})
+    # an `iterable` whose returned opaque has no `iterator` method (special methods are recorded whatever the profile)
+    o_ = pick_opaque(prog, draw)
+    if o_ and not any("iterator)" in a for im in o_["impls"] for mm in im["methods"] for a in mm["attrs"]):
+        p4 = copy.deepcopy(prog)
+        host4 = next(it for _, it in ir.all_items(p4) if it["name"] == o_["name"])
+        host4["impls"].append({"attrs": [], "methods": [{"name": "dv_fault_iter", "attrs": ["#[diplomat::attr(*, iterable)]"], "lifetimes": [], "self": ["ref", None, False], "params": [], "ret": ["box", o_["name"], []]}]})
+        for m_ in p4["modules"]:
+            ir.default_order(m_)
+        tf.append({"rule": "iterable-returns-type-without-iterator", "position": "special-method", "ctx": "%s::dv_fault_iter" % o_["name"], "depth": 1, "program": p4, "support_over": {"iterables": True, "iterators": True}})
     return prof, prog, muts + pf + tf
 
 
